@@ -9,7 +9,8 @@ ID = 'C13'
 TITLE = 'Western Atlas BIT log passes decode to the recorded numbers'
 NATIVE = 'plain'          # the ISINGL differential imports TotalDepth.RP66V1 which imports TotalDepth.LIS.core.cRepCode
 NEEDS = ()
-RULE = ('Files from the independent encoder tdv.gen.bit: 1..4 passes, 1..20 unique four-character channel names, 276-byte first block, '
+RULE = ('Files from the independent encoder tdv.gen.bit: 1..4 (some 11..21) passes, 1..20 unique four-character channel names ([A-Z0-9] or any printable '
+        'ASCII), 276-byte first block, one pass of >= 300 blocks per shard, data blocks of exactly 276 / 12 bytes, some file objects read twice, '
         'channel-major data blocks of 1..64 frames (constant size with a short last block, constant, varying, single or no block), '
         'a type-1 TIF marker after every pass and a second one at the end; every frame value is a random 4-byte word (any sign, '
         'exponent, fraction; some zero, unnormalised, extreme) with a value unique inside its pass; start/stop/spacing are IBM floats, '
@@ -20,7 +21,8 @@ RULE = ('Files from the independent encoder tdv.gen.bit: 1..4 passes, 1..20 uniq
 ASSUMPTIONS = [
     'IBM System/360 single: value = (-1)^s * (fraction/2^24) * 16^(e-64); always exactly representable as a double, so == is the oracle',
     'channel names inside one pass are unique and differ from the computed axis name "X   " (the frame array rejects duplicates)',
-    'the header spacing is stored as a positive magnitude and start != stop (as in the example file); the direction comes from start/stop',
+    'the header spacing is stored as a positive magnitude and start != stop (as in the example file); the direction comes from start/stop; '
+    'start == stop is generated only for passes of at most one frame, where X = [start] whatever the direction',
     'the X axis is accumulated by repeated addition: frame i may deviate from start +/- i*spacing by at most i * 2^-52 * max(|start|, |x_i|)',
     'a zero fraction with the sign bit set may read as -0.0 (equal to 0.0)',
 ]
@@ -117,13 +119,16 @@ def report_value_mismatches(st, monitor, mism, context):
                           observed_hex=[float(o).hex() for _, _, o, _ in part], expected_hex=[float(e).hex() for _, _, _, e in part]))
 
 
-def check_file(st, RB, G, np, data, model, label, path=None):
-    """Run the real reader on data and compare everything the property names with the model."""
+def check_file(st, RB, G, np, data, model, label, path=None, fobj=None):
+    """Run the real reader on data and compare everything the property names with the model.
+    fobj: an already open (and possibly already used) binary file object holding data."""
     import io
     rec = st.rec
     base = {'file': data if len(data) <= 4096 else data[:4096], 'file_length': len(data), 'case': label}
     try:
-        if path is not None:
+        if fobj is not None:
+            got = RB.create_bit_frame_array_from_file(fobj)
+        elif path is not None:
             with open(path, 'rb') as f:
                 got = RB.create_bit_frame_array_from_file(f)
         else:
@@ -285,6 +290,33 @@ def run_shard(ctx, prm):
         elif n == nbig or (ctx.tier != 'quick' and n % 97 == 0):
             # more than ten log passes in one file (frame arrays must come back in file order, not in the order of their idents as text)
             data, model = G.write_file([G.random_pass(rng, max_block=8, max_blocks=3) for _ in range(rng.choice([11, 12, 13, 21]))])
+        elif n == nbig + 1 or (ctx.tier != 'quick' and n % 97 == 1):
+            # a long pass of many small blocks (the example file has 92 blocks; nothing bounds the number)
+            nch = rng.choice([1, 2, 3, 5])
+            nblk = rng.choice([300, 500, 777])
+            full = rng.choice([1, 4, 16])
+            bf = [full] * nblk + ([rng.randrange(1, full)] if full > 1 else [])
+            passes = [G.random_pass(rng, channels=nch, block_frames=bf, unique_values=False)]
+            if rng.random() < 0.5:
+                passes.insert(rng.randrange(2), G.random_pass(rng, max_block=8, max_blocks=3))
+            data, model = G.write_file(passes)
+        elif n % 11 == 4:
+            # data blocks whose byte length equals that of the 276-byte first block (1 x 69 or 3 x 23 values) or of a TIF marker
+            # (1 x 3 or 3 x 1): a block is the first block of a pass by position only, never by size
+            passes = []
+            for _ in range(rng.choice([1, 2, 3])):
+                nch, fr = rng.choice([(1, 69), (3, 23), (1, 3), (3, 1), (1, 69), (3, 23)])
+                k = rng.choice([1, 2, 3])
+                bf = rng.choice([[fr] * k, [fr] * k + [rng.randrange(1, fr)] if fr > 1 else [fr] * (k + 1), [rng.randrange(1, 65)] + [fr] * k])
+                passes.append(G.random_pass(rng, channels=nch, block_frames=bf))
+            data, model = G.write_file(passes)
+        elif n % 11 == 7:
+            # a pass of at most one frame whose stop depth equals its start depth (nothing to move towards), among ordinary passes
+            passes = [G.random_pass(rng, max_block=8, max_blocks=3) for _ in range(rng.choice([0, 1, 2]))]
+            pm = G.random_pass(rng, block_frames=rng.choice([[1], [1], []]))
+            pm.range_words[1] = pm.range_words[0]
+            passes.insert(rng.randrange(len(passes) + 1), pm)
+            data, model = G.write_file(passes)
         elif n % 9 == 0:
             # the same magnitudes with both signs (a curve that swings about zero), within a channel and across passes
             passes = []
@@ -296,9 +328,20 @@ def run_shard(ctx, prm):
                         ch[i] = bytes([w[0] ^ 0x80]) + w[1:]
                 passes.append(pm)
             data, model = G.write_file(passes)
+        elif n % 5 == 2:
+            # channel names over all printable ASCII (lower case, punctuation, right-justified, blank inside)
+            data, model = G.random_file(rng, name_alphabet=G.WIDE_NAME_ALPHABET)
         else:
             data, model = G.random_file(rng)
         classes = ['passes=%d' % len(model.passes)]
+        if any(len(p.block_frames) >= 300 for p in model.passes):
+            classes.append('blocks>=300')
+        if any(4 * p.channels * b in (276, 12) for p in model.passes for b in p.block_frames):
+            classes.append('data-block-of-276-or-12-bytes')
+        if any(p.range_words[0] == p.range_words[1] for p in model.passes):
+            classes.append('start==stop(<=1 frame)')
+        if any(not all(c in G.NAME_ALPHABET + b' ' for c in nm) or nm[:1] == b' ' for p in model.passes for nm in p.names):
+            classes.append('names-any-printable')
         if n % 9 == 0 and n > nbig:
             classes.append('mirrored-signs')
         if any(4 * p.channels * max(p.block_frames or [0]) > 65536 for p in model.passes):
@@ -336,6 +379,13 @@ def run_shard(ctx, prm):
         check_file(st, RB, G, np, data, model, 'generated file %d of shard %d' % (n, part), path=path)
         if path:
             os.unlink(path)
+        if n % 8 == 5:
+            # history: one file object, positioned anywhere, read twice in a row (the reader rewinds it itself)
+            rec.cls('same-file-object-read-twice')
+            fobj = io.BytesIO(data)
+            fobj.seek(rng.randrange(len(data) + 1))
+            check_file(st, RB, G, np, data, model, 'generated file %d of shard %d, first read of a used file object' % (n, part), fobj=fobj)
+            check_file(st, RB, G, np, data, model, 'generated file %d of shard %d, second read of the same file object' % (n, part), fobj=fobj)
         # differential on the header words and a sample of the data words of this file
         dw = []
         for p in model.passes:
